@@ -11,11 +11,6 @@ CONSTANTS
   TracerStyles = {"none", "native", "calls"}
   Threadeds = {FALSE, TRUE}
   Givens = {}
-  Flags = {}
+  Flags = {"tracer_not_reentrant"}
 INVARIANT Restored
-INVARIANT Contained
-INVARIANT NoSpuriousFb
-INVARIANT OutputLedger
-INVARIANT InputFifo
-CONSTRAINT Export
 CHECK_DEADLOCK FALSE
